@@ -37,7 +37,7 @@ BOUNDS = {
     'quick': 'limit_iterable/#iter/Iterable.convert: N in [-1,5], source length in [0,6], demand in [0,8], 11 source '
              'kinds; finalisation: nested shapes depth 2, lengths in [0,4], N in [-1,4]; registry sweep: N in [0,4], '
              'lambda threshold k in [0,3], a VERIF_SEED-rotated third of the (definition, parameter) cases plus all '
-             'expression templates, element kinds int and str; quota: Q in [-1,400], counts in [-3,40], sizes in [0,200]',
+             'expression templates, element kinds int (iterator) and str (re-iterable unsized host object); quota: Q in [-1,400], counts in [-3,40], sizes in [0,200]',
     'thorough': 'same ranges; every (definition, parameter) case with all five element kinds and optional parameters '
                 'filled as well; growth chains up to 4 steps'}
 OUTSIDE = ['total (as opposed to per-value) memory; sizes of nested structures (sys.getsizeof is shallow: that is the '
@@ -79,7 +79,7 @@ def evaluate(text, eng, **variables):
 
 # =============================================================== 1. limit_iterable / #iter / Iterable.convert
 SIZED_KINDS = ['tuple', 'list', 'set', 'frozenset', 'dict', 'frozendict', 'keys', 'items']
-LAZY_KINDS = ['values', 'generator', 'map']
+LAZY_KINDS = ['values', 'generator', 'map', 'reiterable']
 
 
 def make_sized(kind, n):
@@ -125,7 +125,19 @@ class Counted:
         return self.pulls - 1
 
 
+class ReIterable:
+    """host-supplied lazy collection: iterable, but neither an iterator nor sized (a result-set / stream object)"""
+
+    def __init__(self, src):
+        self.src = src
+
+    def __iter__(self):
+        return self.src
+
+
 def make_lazy(kind, src):
+    if kind == 'reiterable':
+        return ReIterable(src)
     if kind == 'generator':
         return (x for x in src)
     if kind == 'map':
@@ -189,10 +201,10 @@ def limit_lazy(n: int, length: int, endless: bool, demand: int) -> bool:
         src = None
     else:
         obj = make_lazy(kind, src)
-    out = apply_limit(how, obj, n)
     delivered, raised = 0, False
-    it = iter(out)
     try:
+        out = apply_limit(how, obj, n)
+        it = iter(out)
         for _ in range(demand):
             try:
                 next(it)
@@ -202,12 +214,14 @@ def limit_lazy(n: int, length: int, endless: bool, demand: int) -> bool:
     except yexc.CollectionTooLargeException:
         raised = True
     avail = demand if endless else min(demand, length)           # items the consumer would get without a limit
-    if n < 0:
-        ok = (not raised) and delivered == avail
+    if raised:
+        # refusing is right exactly when the sequence as a whole exceeds the limit (a sized view may be refused up
+        # front, an iterator only once element N+1 shows up); nothing beyond N elements was handed on
+        ok = n >= 0 and (endless or length > n) and delivered <= n
     else:
-        ok = delivered == min(avail, n) and raised == (avail > n)
+        ok = delivered == avail and (n < 0 or avail <= n)
     if src is not None:
-        ok = ok and not src.blown and src.pulls <= demand and (n < 0 or src.pulls <= n + 1)
+        ok = ok and not src.blown and (n < 0 or src.pulls <= n + 1)
     return H.done(ok)
 
 
@@ -957,7 +971,7 @@ def conditions(tier, seed):
     if q:
         labels = [l for i, l in enumerate(labels) if (i + seed) % 3 == 0 or classify(l)]
     gsize = 6
-    kinds = ['int', 'str'] if q else W.ELEMENT_KINDS
+    kinds = ['int', 'str@re'] if q else W.ELEMENT_KINDS + ['int@re', 'pair@re']
     for gi in range(0, len(labels), gsize):
         grp = labels[gi:gi + gsize]
         add('sweep[%03d:%s]' % (gi, grp[0].split('<')[0]), 'sweep',
